@@ -38,7 +38,7 @@ def main():
     t0 = time.time()
     rc, violations, lines = C.EXIT_OK, 0, []
     # (1) generator contract and (4a) generated binary_search template: Verus
-    units = [("char_range_gen", 9)]
+    units = [("char_range_gen", 14)]
     if os.path.exists(os.path.join(C.VERIF, "contracts", "verus", "binary_search_template.vt")):
         units.append(("binary_search_template", 2))
     results = V.run_units(units)
